@@ -84,6 +84,8 @@ def run_iban(shard, mon):
         spec = table[cc]
         rng = env.rng("C05", cc)
         bases = gen.valid_ibans(cc, spec, rng, 6)
+        # from_bban is a validating constructor too: nothing but library errors, whatever the arguments
+        judge.from_bban_sloppy_arguments(mon, cc, bases[0][4:], table)
         for i in range(sz["per_country"]):
             b = bases[i % len(bases)]
             r = rng.random()
@@ -144,7 +146,10 @@ def run_misc(shard, mon):
         by_m.setdefault(e.get("checksum_algo"), []).append(code)
     for m in sorted(x for x in by_m if x in G.METHODS)[part::parts]:
         code = by_m[m][0]
-        accs = pool_.german_classes(m, rng, 2)
+        from vf.props.c07 import BOUNDARY  # noqa: PLC0415
+
+        # behaviour classes of the method, plus the first / last elements of every published range
+        accs = pool_.german_classes(m, rng, 2) + BOUNDARY
         texts = [R.make_iban("DE", code + a) for a in accs]
         for t in texts + list(reversed(texts)) + texts[:3]:
             judge.judge_iban_total(mon, t, table, f"de-method-{m}", True, nat_verdict)
